@@ -294,6 +294,29 @@ var RenderBodies = []Body{
 		}
 		return ""
 	}},
+	{Name: "FontFamily.Face(Regular) of a family with the Light and the Medium style loaded, 64 times", Run: func() string {
+		// the requested style is not loaded and two loaded styles are equally close: the choice (and
+		// with it the faux weight of the face) must be the same every time
+		fam := canvas.NewFontFamily("tie")
+		if err := fam.LoadFontFile(repoDir()+"/resources/DejaVuSerif.ttf", canvas.FontLight); err != nil {
+			panic(err)
+		}
+		if err := fam.LoadFontFile(repoDir()+"/resources/EBGaramond12-Regular.otf", canvas.FontMedium); err != nil {
+			panic(err)
+		}
+		seen := map[string]bool{}
+		for k := 0; k < 64; k++ {
+			face := fam.Face(10, canvas.Black, canvas.FontRegular, canvas.FontNormal)
+			seen[fmt.Sprintf("%s fauxbold=%g %s", face.Font.Name(), face.FauxBold, textDumpGlyphs(canvas.NewTextLine(face, "fi Vav", canvas.Left)))] = true
+		}
+		if len(seen) != 1 {
+			return fmt.Sprintf("nondeterministic: %d distinct faces and layouts in 64 identical calls", len(seen))
+		}
+		for d := range seen {
+			return "1 result in 64 calls: " + d
+		}
+		return ""
+	}},
 	{Name: "Dash(own line, shared pattern [0 2 3 1])", Run: func() string {
 		// a dash pattern is an argument that callers share between calls (like canvas.Dashed)
 		return canvas.MustParseSVGPath("M0 0L40 0").Dash(0.5, sharedPattern...).String() + fmt.Sprint(sharedPattern)
